@@ -4,7 +4,8 @@ from common import Failure
 from props._base import *  # noqa
 from refids import all_ids, num_cells, random_valid_id, ref_res, MAXV
 
-LEAN_MODULES = ['A5.Props.C20']
+LEAN_MODULES = ['A5.Props.C20', 'A5.Props.SrcTie.Tree']
+SRC_TIE = True
 LEVEL = 'proof'
 EXPLANATION = ('Lean theorems: get_num_cells(r) = size of the duplicate-free expansion of the world cell (all r <= 29); get_num_cells(b) = get_num_cells(a)*get_num_children(a,b) = sum over level a; '
                'get_num_children(a,b) = len(cell_to_children(c,b)) for every cell (symbolic S) and every pair; the implementation\'s closed forms and cell_area bit patterns equal the model on the whole '
